@@ -4,6 +4,7 @@ import (
 	"bytes"
 	"encoding/json"
 	"fmt"
+	"math"
 	"math/big"
 	"strconv"
 	"strings"
@@ -36,9 +37,18 @@ type c07Entry struct {
 
 // c07Config: bulk families run with a 1 MiB array limit so that declared-but-absent payloads stay cheap; the default
 // configuration is exercised by family "default-config" (memory is C08's subject).
+// c07LiftedLimit, when non-zero, replaces every rules limit (a user who lifts the limits): family 11.
+var c07LiftedLimit uint64
+
 func c07Config(rulesOn bool, small bool) *configuration.Configuration {
 	cfg := configuration.New()
 	cfg.Marshal.EnforceRules = rulesOn
+	if v := c07LiftedLimit; v != 0 {
+		r := &cfg.Rules
+		r.MaxDocumentSizeBytes, r.MaxArraySizeBytes, r.MaxIdentifierLength, r.MaxObjectCount, r.MaxContainerDepth = v, v, v, v, v
+		r.MaxIntegerDigitCount, r.MaxFloatCoefficientDigitCount, r.MaxFloatExponentDigitCount, r.MaxYearDigitCount, r.MaxMarkerCount, r.MaxLocalReferenceCount = v, v, v, v, v, v
+		return cfg
+	}
 	if small {
 		cfg.Rules.MaxArraySizeBytes = 1 << 20
 		cfg.Rules.MaxDocumentSizeBytes = 1 << 24
@@ -156,6 +166,20 @@ func c07MarshalF(c *fx.Ctx, name string, v interface{}, recursion bool, text boo
 	}
 }
 
+// self-embedding template types (embedded pointers; the names must be exported for reflect)
+type C07SelfEmbed struct {
+	*C07SelfEmbed
+	X int
+}
+type C07EmbA struct {
+	*C07EmbB
+	A int
+}
+type C07EmbB struct {
+	*C07EmbA
+	B int
+}
+
 type c07Cyc struct {
 	V    int
 	Next *c07Cyc
@@ -181,6 +205,7 @@ func c07Templates() []struct {
 		{"nil", nil}, {"int", 0}, {"string", ""}, {"[]interface{}", []interface{}{}}, {"map[string]interface{}", map[string]interface{}{}}, {"[]int", []int{}}, {"[]bool", []bool{}}, {"struct", c16T1{}}, {"*struct", &c16T1{}}, {"recursive-struct", c07Cyc{}},
 		{"chan", make(chan int)}, {"func", func() {}}, {"complex128", complex(1, 2)}, {"unsafe.Pointer", unsafe.Pointer(nil)}, {"struct-with-chan", withChan{}}, {"struct-with-func", withFunc{}}, {"[]func()", []func(){}},
 		{"map[string]chan int", map[string]chan int{}}, {"embedded-pointer", embedsPtr{}}, {"uintptr", uintptr(0)}, {"[3]chan int", [3]chan int{}}, {"**int", (**int)(nil)}, {"interface-holding-chan", []interface{}{make(chan int)}},
+		{"self-embedding-pointer", C07SelfEmbed{}}, {"mutually-embedding-pointers", C07EmbA{}}, {"*self-embedding-pointer", &C07SelfEmbed{}},
 	}
 }
 
@@ -481,6 +506,27 @@ func c07Run(c *fx.Ctx) {
 				}
 			}
 			c.Distinct("nontrivial", fmt.Sprintf("f9-%s-%d", coef, exp))
+		}
+	}
+	// family 11: every rules limit lifted to the top of its range (constructors run before any recover() is installed)
+	for _, lim := range []uint64{math.MaxUint64, math.MaxInt64, 1 << 62} {
+		for di, d := range corpus {
+			if di >= 8 {
+				break
+			}
+			if !c.Take() {
+				continue
+			}
+			c.Checkpoint()
+			c07LiftedLimit = lim
+			for _, doc := range [][]byte{d.cbe, d.cte} {
+				if doc != nil {
+					c07Slow(c, doc, nil, "nil", true, false)
+					c07Try(c, "rules.NewRules", doc, "", func() error { rules.NewRules(&ev.Recorder{}, c07Config(true, false)); return nil })
+				}
+			}
+			c07LiftedLimit = 0
+			c.Distinct("nontrivial", fmt.Sprintf("f11-%d-%s", lim, d.name))
 		}
 	}
 	// family 10 (last, because each member may kill its worker): self-referential template types, and hex floats whose
